@@ -126,8 +126,9 @@ def copy_(op, dest, src):
 
 @register_qbytestensor_op([torch.ops.aten.div])
 def div(op, input, other):
-    if not is_scalar(other):
-        return op(input.dequantize(), other)
+    if not isinstance(input, QBytesTensor) or not is_scalar(other):
+        # Only the division of a quantized tensor by a scalar can be applied to the scale
+        return qfallback(op, input, other)
     # We just divide the scale
     return QBytesTensor(input.qtype, input.axis, input.size(), input.stride(), input._data, op(input._scale, other))
 
